@@ -30,6 +30,11 @@
 //            | (out S.. S)     same but the chain of parents does not end at the model being dumped
 //            | (orphan S)      the variable has no parent component
 //
+// CAVEAT (library behaviour): Variable::equivalenceConnectionId(v1, v2) looks the id up through a std::map keyed by
+// VariablePtr, so when several equivalences between the same two components carry DIFFERENT connection ids (only
+// e.g. after the 4-argument addEquivalence) the value read back depends on object addresses and (connid ..)
+// is not reproducible between runs.  Pass withConnectionIds=false to leave (connid ..) out.
+//
 // sorted=true : every child list (units, unit children, components, variables, resets, equivalences) is sorted
 //               by its dumped text, so models equal up to child order dump identically.
 // sorted=false: order preserved (equivalences are always sorted).
@@ -269,7 +274,7 @@ inline void collectVariables(const libcellml::ComponentEntityPtr &e, std::vector
 }
 
 // equivalences seen from the variables reachable under `root`; paths are relative to `model`
-inline std::string dumpEquivalences(const libcellml::ComponentEntityPtr &root, const libcellml::ModelPtr &model)
+inline std::string dumpEquivalences(const libcellml::ComponentEntityPtr &root, const libcellml::ModelPtr &model, bool withConnectionIds = true)
 {
     std::vector<libcellml::VariablePtr> vars;
     collectVariables(root, vars);
@@ -341,11 +346,14 @@ inline std::string dumpEquivalences(const libcellml::ComponentEntityPtr &root, c
         if (r.mapBA != r.mapAB) {
             o += " " + dq(r.mapBA);
         }
-        o += ") (connid " + dq(r.conAB);
-        if (r.conBA != r.conAB) {
-            o += " " + dq(r.conBA);
-        }
         o += ")";
+        if (withConnectionIds) {
+            o += " (connid " + dq(r.conAB);
+            if (r.conBA != r.conAB) {
+                o += " " + dq(r.conBA);
+            }
+            o += ")";
+        }
         if (r.bInside && r.sides < 2) {
             o += " oneway";
         }
@@ -357,7 +365,7 @@ inline std::string dumpEquivalences(const libcellml::ComponentEntityPtr &root, c
 
 // ---- public entry points -----------------------------------------------------------------------
 
-inline std::string dumpModel(const libcellml::ModelPtr &m, bool sorted)
+inline std::string dumpModel(const libcellml::ModelPtr &m, bool sorted, bool withConnectionIds = true)
 {
     if (m == nullptr) {
         return "(model null)";
@@ -376,7 +384,7 @@ inline std::string dumpModel(const libcellml::ModelPtr &m, bool sorted)
         cs.push_back(dumpComponent(cx, m->component(i)));
     }
     o += " (components" + joinList(cs, sorted) + ")";
-    o += " " + dumpEquivalences(m, m) + ")";
+    o += " " + dumpEquivalences(m, m, withConnectionIds) + ")";
     return o;
 }
 
